@@ -3,6 +3,7 @@
   Invariants over *every* interleaving of gets, discovery updates, reloads, probe starts, probe
   results and retry timers.
 -/
+import Kvass.Pins.Disc
 import Kvass.Model.Explore
 import Kvass.Spec.Explore
 
